@@ -5,3 +5,5 @@ import NxsModel.Stream
 import NxsModel.Record
 import NxsModel.Pad
 import NxsModel.Requests
+import NxsModel.Props.C05
+import NxsModel.Props.C17
